@@ -69,7 +69,13 @@ def _hybrid(prop, driver, sidecars, proved, bounded, assumptions=("A1", "A4", "A
 
 PROPS.update({
     "C01": _bounded("C01", "c01", "all eight step kinds applied (directly and through JSON) to valid documents under 6 schema variants; result must be a clean failure or an oracle-valid document."),
-    "C02": _bounded("C02", "c02", "Node.slice / Node.replace against the flat-token oracle for every range of small documents and a pool of foreign slices."),
+    "C02": _hybrid("C02", "c02", ["contracts.model_core"],
+                   "the size / index algebra replace and slice are built from: Fragment.__init__ (size == sum of child sizes, class invariant proved at every construction), find_index (offset == prefix sum, "
+                   "position at the boundary or strictly inside the child selected by the rounding side, termination), cut_by_index, replace_child, add_to_start, add_to_end (content and size), child / maybe_child / first_child / last_child, node_size, "
+                   "with the prefix-sum lemmas proved by induction.",
+                   "that Node.slice / Node.replace are exactly a splice of the flat token sequence (token oracle for every range of small documents and a pool of foreign slices); replace_outer / replace_two_way / replace_three_way / close / join recursion is outside the proved set.",
+                   assumptions=("A1", "A4", "A5", "A6", "A7", "A9", "A10", "Z3", "PYVC"), min_obligations=90,
+                   bounded_only=["token-level splice semantics of Node.replace / Node.slice", "Fragment.cut / append / from_array (text merging)", "schema validity of the result"]),
     "C03": _hybrid("C03", "c03", ["contracts.transform_steps"],
                    "the shape of every step's map (ReplaceStep / ReplaceAroundStep.get_map ranges from the step's fields, empty map for attribute / mark steps), "
                    "Transform.add_step records exactly one map per step, StepMap._map / for_each obey the documented rule (from C08).",
@@ -80,9 +86,19 @@ PROPS.update({
                    "ReplaceStep.invert's fields; lemmas: the inverted replace / replace-around step's map maps every position like the inverted map (complete unrolling); mark-step inverses swap add/remove.",
                    "replay and undo of whole histories, single-step undo, inverse maps on concrete steps.",
                    min_obligations=40, bounded_only=["exact undo / replay of histories (needs the splice semantics of replace)"]),
-    "C09": _bounded("C09", "c09", "resolve + every accessor, node_at, marks, nodes_between, text_between (UTF-16), range_has_mark against an oracle tree for every position / pair."),
+    "C09": _hybrid("C09", "c09", ["contracts.model_core"],
+                   "Fragment.find_index (the index / offset pair every position lookup starts from: offset == prefix sum of child sizes, the position lies at that boundary or strictly inside the child chosen by the rounding side; raises exactly outside 0..size; terminates), "
+                   "child / maybe_child (None exactly outside 0..n-1) / first_child / last_child / child_count, node_size of text, leaf and branch nodes.",
+                   "ResolvedPos.resolve and every derived accessor, node_at, marks, nodes_between, text_between (UTF-16), range_has_mark against an oracle tree for every position / pair of positions.",
+                   assumptions=("A1", "A4", "A5", "A6", "A7", "A10", "Z3", "PYVC"), min_obligations=90,
+                   bounded_only=["ResolvedPos.resolve and accessors", "nodes_between / text_between / range_has_mark", "marks()"]),
     "C11": _bounded("C11", "c11", "7 replace-family operations x ranges x payload-valid slices: totality (2 s alarm), oracle validity, prefix/suffix preservation, no invented content."),
-    "C12": _bounded("C12", "c12", "helper approvals (split, join, join_point, lift, wrap, insert_point, drop_point) followed by the edit: must succeed, stay valid, keep the leaf sequence."),
+    "C12": _hybrid("C12", "c12", ["contracts.model_pos"],
+                   "can_cut (== both partial replacements are accepted by the parent's content automaton), lift_target (result in range, only through non-isolating ancestors), Fragment / Node.maybe_child (None exactly outside 0..n-1: what join_point relies on at index 0), "
+                   "Node.can_replace / can_replace_with / can_append (== automaton run, from C07).",
+                   "helper approvals (split, join, join_point, lift, wrap, insert_point, drop_point) followed by the edit: must succeed, stay valid, keep the leaf sequence.",
+                   assumptions=("A1", "A4", "A5", "A6", "A10", "Z3", "PYVC"), min_obligations=150, shards={"lift_target": 2, "Node.can_replace": 2},
+                   bounded_only=["approve => perform succeeds (whole-document property)", "can_split, can_join, join_point, find_wrapping, insert_point, drop_point bodies"]),
     "C13": _bounded("C13", "c13", "add/remove mark over ranges and node-level edits against a per-token mark oracle incl. an exclusion-variant schema."),
     "C14": dict(
         sidecars=["contracts.model_mark"],
@@ -153,7 +169,12 @@ PROPS.update({
                    "every step class's map(mapping): dropped exactly under the documented deletion-flag condition, otherwise positions are the mapped ones with the documented association sides and the payload is unchanged; StepMap._map's contract (C08).",
                    "that both orders of two separated rebased steps apply and give equal documents.",
                    min_obligations=100, shards={"StepMap._map": 8}, bounded_only=["commutation of the two application orders"]),
-    "C18": _bounded("C18", "c18", "every range inside every isolating node x replace-family operations: tokens outside the node unchanged; lift_target / can_split do not cross."),
+    "C18": _hybrid("C18", "c18", ["contracts.model_pos"],
+                   "covered_depths returns only depths that are free of isolating nodes on both sides down to the innermost common depth (range expansion of replace_range / delete_range never passes an isolating boundary); "
+                   "Slice.max_open(open_isolating=False) opens no isolating node on either spine; lift_target returns only depths reached through non-isolating ancestors.",
+                   "every range inside every isolating node x replace-family operations: tokens outside the node unchanged; lift_target / can_split do not cross (the fitter itself is outside the proved set).",
+                   assumptions=("A1", "A4", "A5", "A6", "A9", "A10", "Z3", "PYVC"), min_obligations=200, shards={"Slice.max_open": 4, "lift_target": 2},
+                   bounded_only=["Fitter (replace_step) behaviour at isolating boundaries", "can_split", "ResolvedPos accessors (trusted in tier P, checked natively)"]),
     "C20": _bounded("C20", "c20", "find_diff_start / find_diff_end against token prefixes / suffixes on equal copies and (document, edited document) pairs sharing sub-trees, incl. astral text; 2 s alarm."),
 })
 
